@@ -569,6 +569,54 @@ Fixpoint stmt_reads (s : stmt) : list id :=
   | SPass => []
   end.
 
+(* mypy.partially_defined (error code used-before-def, on by default): a read of a variable that is bound
+   later in the function but on no path so far.  State: Some names = possibly bound so far; None = the
+   branch was skipped (after return / assert False).  The assigned name counts as bound inside its own
+   right-hand side (process_lvalue runs first).  The real pass also skips an else-branch the type checker
+   found unreachable; this pre-pass only knows literal conditions, so a failure is reported as Unsup. *)
+Definition reads_ok (dd : list id) (e : expr) : bool := forallb (fun x => mem_id x dd) (expr_vars e).
+
+Definition true_lit (e : expr) : bool :=
+  match e with EBool true => true | EInt z => Z.ltb 0 z | _ => false end.
+Definition false_lit (e : expr) : bool :=
+  match e with EBool false => true | EInt z => Z.eqb z 0 | _ => false end.
+
+Definition join_def (a b : option (list id)) : option (list id) :=
+  match a, b with None, _ => b | _, None => a | Some x, Some y => Some (x ++ y) end.
+
+Fixpoint ubd (st : option (list id)) (s : stmt) : option (option (list id)) :=
+  match st with
+  | None => Some None
+  | Some dd =>
+    match s with
+    | SAssign x e | SDef x e | SDecl x _ e =>
+        if reads_ok (x :: dd) e then Some (Some (x :: dd)) else None
+    | SExpr e => if reads_ok dd e then Some st else None
+    | SReturn e => if reads_ok dd e then Some None else None
+    | SAssert e => if reads_ok dd e then (if false_lit e then Some None else Some st) else None
+    | SPass => Some st
+    | SLab _ a => ubd st a
+    | SSeq a b => match ubd st a with Some st1 => ubd st1 b | None => None end
+    | SIf c a b =>
+        if reads_ok dd c then
+          match ubd st a, (if true_lit c then Some None else ubd st b) with
+          | Some ra, Some rb => Some (join_def ra rb)
+          | _, _ => None
+          end
+        else None
+    | SWhile c b =>
+        if reads_ok dd c then
+          match ubd st b with
+          | Some rb => Some (if true_lit c then rb else join_def rb st)
+          | None => None
+          end
+        else None
+    end
+  end.
+
+Definition ubd_ok (bound : list id) (s : stmt) : bool :=
+  match ubd (Some bound) s with Some _ => true | None => false end.
+
 Fixpoint distinct (l : list id) : bool :=
   match l with [] => true | x :: r => negb (mem_id x r) && distinct r end.
 
@@ -582,6 +630,7 @@ Definition check_fun (P : prog) (strict : bool) (self : option id) (fd : fdecl) 
           | None => Rej None
           | Some bound =>
               if negb (forallb (fun x => mem_id x bound) (stmt_reads (f_body fd))) then Rej None else
+              if negb (ubd_ok (map fst ps) (f_body fd)) then Unsup else
               bind (check_stmt P strict (f_ret fd) {| decl := ps; cur := Some [] |} (f_body fd)) (fun st' =>
                 match cur st' with
                 | None => Ok tt
